@@ -44,6 +44,8 @@ C01OK(c, r) ==
     /\ Override(zs, Q(r), res, n)
     /\ Provenance(zs, res)
     /\ NameErrorOnlyAuth(zs, Q(r), res)
+    /\ ChainEndOwned(zs, Q(r), res)
+    /\ \A i \in DOMAIN r.exchanges : AskedUpstreamOK(zs, r.exchanges[i].qname, r.exchanges[i].qtype)
 
 \* (a referral out of an authoritative local zone is returned in the answer section in authoritative-only
 \* mode - deviation D3, finding F6 - and is not an alias chain)
@@ -134,7 +136,9 @@ C07OK(c, k) ==
              /\ { Key(x) : x \in Range(r.result.rrs) } = { Key(x) : x \in Range(t.rrs) }
              /\ Len(r.result.rrs) = Len(t.rrs)
              /\ ChainOk(Q(r), r.result.rrs)
-             /\ t.negative => (r.result.has_soa /\ Key(r.result.soa) = Key(t.soa))
+             \* (C07 is stated for recursive resolution; forwarding passes the SOA of a negative answer on only when
+             \* the answer section is empty - observation O2 - so behind an alias it is not demanded there)
+             /\ (t.negative /\ (c.mode = "recursive" \/ t.rrs = <<>>)) => (r.result.has_soa /\ Key(r.result.soa) = Key(t.soa))
        \* each server asked the client's question serves a zone strictly closer to the name than the previous one
        \* (the same address twice in a row is the UDP -> TCP fallback)
        /\ \A i \in 2..Len(mine) :
@@ -183,7 +187,8 @@ DriftFree(c, k) ==
 F13Shape(c, r) ==
     LET zs == ZonesOf(c)  res == ResOf(r)  n == Len(r.exchanges) IN
     /\ AuthOwns(zs, Q(r), res, n) /\ Override(zs, Q(r), res, n) /\ NameErrorOnlyAuth(zs, Q(r), res)
-    /\ ~Provenance(zs, res)
+    /\ \A i \in DOMAIN r.exchanges : AskedUpstreamOK(zs, r.exchanges[i].qname, r.exchanges[i].qtype)
+    /\ ~Provenance(zs, res)          \* (ChainEndOwned then fails with it: the records at the chain's end are the upstream's)
     /\ n > 0 /\ c.mode # "auth"
     /\ \A i \in DOMAIN res.rrs :
           ~Provenance(zs, [res EXCEPT !.rrs = <<res.rrs[i]>>]) =>
